@@ -295,6 +295,6 @@ theorem isoparse_accepts_iff (c : Nat) (hc : isDigit c = false) (s : Bytes) (v :
       · cases h0
       · exact ⟨f, x, hW, by injection h0 with h0; exact h0.symm, er, ev⟩
   · rintro ⟨f, x, hW, rfl, rfl, rfl⟩
-    exact isoparse_render_core f x (some f.sep) hW (fun _ => hc) (Or.inr rfl)
+    exact isoparse_render_core f x (some f.sep) hW (fun _ _ => hc) (Or.inr rfl)
 
 end Iso
